@@ -76,6 +76,7 @@ func TestVerifC09(t *testing.T) {
 	}
 	if x := vGenExtraRoot(); x != "" {
 		sels = append(sels, sel{x, "x_vfr_2000_4000"}) // chunk boundaries must follow the real sample durations
+		sels = append(sels, sel{x, "x_ts_10mhz"})      // a 10 MHz timescale: products of media time and 1000 or 90000
 	}
 	if !quick {
 		sels = append(sels, sel{vBundledRoot, "testpic_6s"})
